@@ -222,7 +222,10 @@ theorem end_to_end (a : Args) (sc : Script) (hh : NUL ∉ a.host)
     (hK : headB (rreport 0 (render (smtpRun a sc))) = cK) :
     (expect (abstr a sc)).v = .K ∧ (expect (abstr a sc)).rl.head? = some lR := by
   have hok : ResOK (smtpRun a sc) := run_ok a sc.wfail hh _
-  have good : Good (expect (abstr a sc)) (smtpRun a sc) := run_good a sc.wfail _
+  have good : (obsOf (smtpRun a sc)).rl = (expect (abstr a sc)).rl ∧
+      (verdictOK (expect (abstr a sc)).v (obsOf (smtpRun a sc)) = true ∨
+       (sc.wfail = some .quit ∧ (expect (abstr a sc)).v.decided = true ∧ (smtpRun a sc).msg = droppedRep a.host false)) :=
+    run_all a sc.wfail _
   generalize smtpRun a sc = res at hok good hK
   have hs := Nq.Lemmas.Rspawn.rspawnSound_rreport 0 (render res)
   unfold rspawnSound at hs
@@ -237,7 +240,11 @@ theorem end_to_end (a : Args) (sc : Script) (hh : NUL ∉ a.host)
   rw [hrec, firstKZD_rcpts _ _ hok.1 hok.2.2] at hf
   have hml : (obsOf res).ml = cK := by simpa [obsOf] using hf
   have hv : (expect (abstr a sc)).v = .K := by
-    have h1 := good.1
+    have h1 : verdictOK (expect (abstr a sc)).v (obsOf res) = true := by
+      rcases good.2 with h | ⟨_, _, h3⟩
+      · exact h
+      · have : (obsOf res).ml = cZ := by simp [obsOf, h3, headB_dropped]
+        rw [this] at hml; exact absurd hml (by decide)
     cases hv : (expect (abstr a sc)).v with
     | K => rfl
     | Z => rw [hv] at h1; simp [verdictOK, hml, cK, cZ, cD] at h1
@@ -245,7 +252,7 @@ theorem end_to_end (a : Args) (sc : Script) (hh : NUL ∉ a.host)
     | lost c => rw [hv] at h1; simp [verdictOK, hml, cK, cZ, cD] at h1
   refine ⟨hv, ?_⟩
   obtain ⟨_, _, _, _, a5, ⟨c, hc, _⟩, _⟩ := expect_K _ hv
-  have hrl : (obsOf res).rl = (expect (abstr a sc)).rl := good.2
+  have hrl : (obsOf res).rl = (expect (abstr a sc)).rl := good.1
   rw [← hrl]
   have hne : (obsOf res).rl ≠ [] := by
     rw [hrl, a5]; intro e; rw [List.map_eq_nil_iff.mp e] at hc; simp at hc
